@@ -183,6 +183,37 @@ def run(ctx):
                 if bad:
                     ctx.violation('impl-violation', input=repr(i), input_json=json.dumps(i), from_text=text, **bad,
                                   how_to_replay='./check C07 --replay <this file>')
+    # (3) the executable's own reading and printing (--parser-test): the printed rendering must parse back to the parse of
+    # the FILE's text -- line breaks inside literals, CR-ended comments, lexemes that touch
+    import os
+    import subprocess
+    import tempfile
+    import shutil
+    files = ['(assert (= s "a\r\nb"))\r\n(declare-fun |x\ry| () Bool)\r\n', '; c1\r(assert true)\r(check-sat)\r', '(assert ; c\r true)\n',
+             '(f x"(")\n(g a|b c| d)\n(h #b01"s")\n', '(set-info :source |a\r\nb|)\n; last', '"top" |q| ; c\n(a)']
+    d = tempfile.mkdtemp(prefix='verif-c07-')
+    try:
+        pcalls, pmeta = [], []
+        for k, t in enumerate(files):
+            fn = os.path.join(d, f'f{k}.smt2')
+            with open(fn, 'w', newline='') as f:
+                f.write(t)
+            for extra in ([], ['--pretty-print'], ['--wrap-lines']):
+                p_ = subprocess.run([common.PY, os.path.join(common.REPO, 'bin', 'ddsmt'), '--parser-test'] + extra + [fn, os.path.join(d, 'out.smt2')],
+                                    stdout=subprocess.PIPE, stderr=subprocess.PIPE, env=dict(os.environ, PYTHONPATH=''))
+                printed = p_.stdout.decode('utf-8', 'surrogateescape')
+                pcalls += [(1, w_str(t)), (1, w_str(printed))]
+                pmeta.append((t, extra, printed, p_.returncode))
+        pres = model.batch(pcalls)
+        for k, (t, extra, printed, rc) in enumerate(pmeta):
+            want, got = r_shapes(pres[2 * k]), r_shapes(pres[2 * k + 1])
+            ctx.case(['parser-test', t, extra], True)
+            ctx.count('--parser-test runs')
+            if rc != 0 or got != want:
+                ctx.violation('impl-violation', input=repr(t), input_json=json.dumps(want), mode='--parser-test ' + ' '.join(extra),
+                              rendering=printed[:1500], observed=f'exit status {rc}; the printed text parses to {got!r:.600}', expected=f'{want!r:.600}')
+    finally:
+        shutil.rmtree(d, ignore_errors=True)
     if ctx.thorough:
         shard = [(f, w_shapes(es)) for es in cases[:120] for _, f in MODES[:1]] + \
                 [(1, w_str(t)) for t in texts[:200]]
